@@ -8,3 +8,31 @@ def subseed(seed, *parts):
 
 def digest_int(hexdigest):
     return int(hexdigest, 16)
+
+
+import json as _json
+import os as _os
+
+VERIF = _os.path.dirname(_os.path.dirname(_os.path.abspath(__file__)))
+_known_cache = None
+
+
+def load_known():
+    global _known_cache
+    if _known_cache is None:
+        p = _os.path.join(VERIF, "known_findings.json")
+        if _os.path.exists(p):
+            with open(p) as f:
+                _known_cache = _json.load(f)
+        else:
+            _known_cache = {"known": [], "fixed": []}
+    return _known_cache
+
+
+def known_entry(prop, signature, oracle):
+    if signature is None:
+        return None
+    for e in load_known()["known"]:
+        if e["property"] == prop and e["signature"] == signature and oracle in e.get("oracles", ()):
+            return e
+    return None
